@@ -497,6 +497,8 @@ def guard_nf(norm, g):
         c = cmp_nf(nt, v)
         if c is not None:
             return ("cmp",) + c
+        while isinstance(nt, tuple) and nt[0] == "un" and nt[1] == "Not":
+            nt, v = nt[2], not v
         return ("bool", nt, v)
     return ("sw", nt, op, v)
 
